@@ -313,6 +313,7 @@ type vCfg struct {
 	variant int // 0 weak, 1 heap order, 2 heap order + distinct priorities
 	cmp     KeyCompare
 	name    string
+	cb      *StoreCallbacks // optional callbacks the store is created with
 }
 
 type vPre struct {
@@ -332,13 +333,21 @@ type vBuilder struct {
 }
 
 func vNewStore(file bool) (*Store, *vFile) {
+	return vNewStoreCb(file, nil)
+}
+
+func vNewStoreCb(file bool, cb *StoreCallbacks) (*Store, *vFile) {
+	var cbs StoreCallbacks
+	if cb != nil {
+		cbs = *cb
+	}
 	if !file {
-		s, err := NewStore(nil)
+		s, err := NewStoreEx(nil, cbs)
 		vAssert("newstore-mem", vAnd(err == nil, s != nil))
 		return s, nil
 	}
 	f := &vFile{}
-	s, err := NewStore(f)
+	s, err := NewStoreEx(f, cbs)
 	vAssert("newstore-file", vAnd(err == nil, s != nil))
 	return s, f
 }
@@ -356,7 +365,7 @@ func vBuildPre(cfg vCfg) *vPre {
 	if cfg.name == "" {
 		cfg.name = "a"
 	}
-	s, f := vNewStore(cfg.file)
+	s, f := vNewStoreCb(cfg.file, cfg.cb)
 	c := s.SetCollection(cfg.name, cfg.cmp)
 	pre := &vPre{s: s, c: c, f: f, cfg: cfg, m: &vModel{cmp: cfg.cmp}}
 	b := &vBuilder{pre: pre}
